@@ -25,18 +25,35 @@
         ldr/ldrb/ldrh/ldrsb/ldrsh/ldrsw (integer; unsigned offset | unscaled | post-index | pre-index; base SP or Xn,
             destination XZR discards; LE and BE data)        lift_correct_ldrImm
         str/strb/strh (same addressing modes)                lift_correct_strImm
-            both for every state in which the pseudocode completes (`A64.step w s = .ok s'`: no Data Abort, not the
-            CONSTRAINED UNPREDICTABLE write-back with base = transfer register) and the access does not wrap around 2^64
-            (falcon's memory panics there: C07/C08)
+            (all `ldur*`/`stur*` unscaled variants — ldurb, ldursb, ldurh, ldursh, ldursw, ldur, sturb, sturh, stur —
+             are the `ImmForm` case "bits 11:10 = 00" of these two theorems)
+        ldr*/str* register offset `[Xn|SP, Xm{, lsl #s}]`, `[Xn|SP, Wm, uxtw|sxtw {#s}]`, `[Xn|SP, Xm, sxtx {#s}]`
+                                                             lift_correct_ldrReg / lift_correct_strReg
+        ldr (literal) W/X, ldrsw (literal), prfm (literal)   lift_correct_ldrLiteral
+        prfm (unsigned offset), prfum, prfm (register offset): `nop` = the hint changes no state
+                                                             lift_correct_prfmImm / lift_correct_prfmReg
+        ldp/stp/ldpsw/ldnp/stnp (integer; offset, pre-, post-index; 32/64 bit; SP base; XZR transfers)
+                                                             lift_correct_ldpStp
+        ldar/ldlar/stlr/stllr (+ b, h forms), stlur/stlurb/stlurh, as PLAIN accesses: the ordering semantics
+            (acquire/release) is not modelled by the IL, the executor or the specification's sequential state
+                                                             lift_correct_ldar_stlr / lift_correct_stlur
+            all memory theorems: for every state in which the pseudocode completes (`A64.step w s = .ok s'`: no Data
+            Abort / Alignment fault, and not a CONSTRAINED UNPREDICTABLE encoding — write-back with base = transfer
+            register, LDP with Rt = Rt2, should-be-one fields of the ordered forms not all ones) and the access does not
+            wrap around 2^64 (falcon's memory panics there: C07/C08)
         b, bl                                                lift_correct_b_bl
         br, blr, ret                                         lift_correct_br_blr_ret
         b.cond (all 16 condition codes via `ConditionHolds`) lift_correct_b_cond
         cbz/cbnz, tbz/tbnz                                   lift_correct_cbz_cbnz / lift_correct_tbz_tbnz
-  (C) differential only (`unproved_classes`): register-offset and literal loads, pairs (ldp/stp/ldpsw/ldnp/stnp),
-        load-acquire/store-release, STLUR, SIMD&FP loads/stores, prefetch.
+  (C) differential only (`unproved_classes`), complete list w.r.t. the dispatch table of lib/translator/aarch64/mod.rs:
+        SIMD&FP registers as transfer registers of LDR/STR/LDUR/STUR (immediate, register offset, literal) and
+        LDP/STP/LDNP/STNP (V = 1 encodings) — compared three-way on every generated case, no mirror, no theorem;
+        outside the property's statement but reachable through shared bad64 mnemonics (counted as `outside_spec`):
+        AdvSIMD/SVE forms of ADD/SUB/MOV (vector add, INS/UMOV/DUP/ORR-vector `mov`, SVE `mov`/`add`/`sub`) and the SVE
+        prefetches PRFB/PRFD/PRFH/PRFW.
   No theorem uses an axiom beyond propext / Classical.choice / Quot.sound (no `bv_decide` axioms).
 -/
-import FalconProofs.C03.AddSubExt2
+import FalconProofs.C03.Prefetch
 
 namespace Falcon.C03
 open Falcon Falcon.Const Falcon.A64Lift
@@ -192,6 +209,83 @@ theorem lift_correct_strImm (w : BitVec 32) (addr : Nat) (r : BTR) (hc : fld w 2
     ∃ σ', runBTR r σ = .next σ' [s'.pc.toNat] ∧ Abs σ' s' :=
   strImm_agrees w addr r hc h25 h26 himm sg rs hdec h σ s ha hpc haddr s' hs hnowrap
 
+/-- LDR/LDRB/LDRH/LDRSB/LDRSH/LDRSW with a register offset (`RegForm w`: option ∈ {UXTW, LSL, SXTW, SXTX}, S = 0/1) -/
+theorem lift_correct_ldrReg (w : BitVec 32) (addr : Nat) (r : BTR) (hc : fld w 29 27 = 0b111) (h25 : bit w 25 = false)
+    (h26 : bit w 26 = false) (hreg : RegForm w) (sg : Bool) (rs : Nat)
+    (hdec : A64.decodeSizeOpc (fld w 31 30) (fld w 23 22) = some (.load, sg, rs))
+    (h : lift w addr = some r) (σ : State) (s : A64.St) (ha : Abs σ s)
+    (hpc : s.pc = BitVec.ofNat 64 addr) (haddr : addr + 4 < 2 ^ 64)
+    (s' : A64.St) (hs : A64.step w s = .ok s')
+    (hnowrap : (A64.XSP s (fld w 9 5) 64 + regOff w s).toNat + 1 <<< fld w 31 30 ≤ 2 ^ 64) :
+    ∃ σ', runBTR r σ = .next σ' [s'.pc.toNat] ∧ Abs σ' s' :=
+  ldrReg_agrees w addr r hc h25 h26 hreg sg rs hdec h σ s ha hpc haddr s' hs hnowrap
+
+/-- STR/STRB/STRH with a register offset -/
+theorem lift_correct_strReg (w : BitVec 32) (addr : Nat) (r : BTR) (hc : fld w 29 27 = 0b111) (h25 : bit w 25 = false)
+    (h26 : bit w 26 = false) (hreg : RegForm w) (sg : Bool) (rs : Nat)
+    (hdec : A64.decodeSizeOpc (fld w 31 30) (fld w 23 22) = some (.store, sg, rs))
+    (h : lift w addr = some r) (σ : State) (s : A64.St) (ha : Abs σ s)
+    (hpc : s.pc = BitVec.ofNat 64 addr) (haddr : addr + 4 < 2 ^ 64)
+    (s' : A64.St) (hs : A64.step w s = .ok s')
+    (hnowrap : (A64.XSP s (fld w 9 5) 64 + regOff w s).toNat + 1 <<< fld w 31 30 ≤ 2 ^ 64) :
+    ∃ σ', runBTR r σ = .next σ' [s'.pc.toNat] ∧ Abs σ' s' :=
+  strReg_agrees w addr r hc h25 h26 hreg sg rs hdec h σ s ha hpc haddr s' hs hnowrap
+
+/-- LDR Wt/Xt (literal), LDRSW (literal), PRFM (literal): `opc 011 0 00 imm19 Rt`, address `PC + SignExtend(imm19:00)` -/
+theorem lift_correct_ldrLiteral (w : BitVec 32) (addr : Nat) (r : BTR) (hc : fld w 29 27 = 0b011)
+    (h24 : fld w 25 24 = 0) (h26 : fld w 26 26 = 0) (h : lift w addr = some r) (σ : State) (s : A64.St) (ha : Abs σ s)
+    (hpc : s.pc = BitVec.ofNat 64 addr) (haddr : addr + 4 < 2 ^ 64)
+    (s' : A64.St) (hs : A64.step w s = .ok s') (hnowrap : (litAddr w s).toNat + 8 ≤ 2 ^ 64) :
+    ∃ σ', runBTR r σ = .next σ' [s'.pc.toNat] ∧ Abs σ' s' :=
+  ldLiteral_agrees w addr r hc h24 h26 h σ s ha hpc haddr s' hs hnowrap
+
+/-- LDP/STP/LDPSW/LDNP/STNP (integer), `opc 101 0 mode L imm7 Rt2 Rn Rt` with `PairOK w` (not STGP / unallocated opc):
+    both elements, their order in memory, sign extension of LDPSW, write-back of Xn|SP; the CONSTRAINED UNPREDICTABLE
+    encodings (write-back with Rn ∈ {Rt, Rt2}, Rn ≠ 31; load with Rt = Rt2) are excluded by `hs` -/
+theorem lift_correct_ldpStp (w : BitVec 32) (addr : Nat) (r : BTR) (hc : fld w 29 27 = 0b101) (h25 : fld w 25 25 = 0)
+    (h26 : fld w 26 26 = 0) (hok : PairOK w)
+    (h : lift w addr = some r) (σ : State) (s : A64.St) (ha : Abs σ s)
+    (hpc : s.pc = BitVec.ofNat 64 addr) (haddr : addr + 4 < 2 ^ 64)
+    (s' : A64.St) (hs : A64.step w s = .ok s')
+    (hnowrap : (pairAddr w s).toNat + 2 * (1 <<< (2 + fld w 31 30 / 2)) ≤ 2 ^ 64) :
+    ∃ σ', runBTR r σ = .next σ' [s'.pc.toNat] ∧ Abs σ' s' :=
+  ldpStp_agrees w addr r hc h25 h26 hok h σ s ha hpc haddr s' hs hnowrap
+
+/-- LDAR/LDLAR/STLR/STLLR and their B/H forms (`size 001000 1 L 0 11111 o0 11111 Rn Rt`) as plain accesses at [Xn|SP];
+    `hs` excludes unaligned addresses (Alignment fault) and should-be-one violations -/
+theorem lift_correct_ldar_stlr (w : BitVec 32) (addr : Nat) (r : BTR) (hc : fld w 29 24 = 0b001000)
+    (h : lift w addr = some r) (σ : State) (s : A64.St) (ha : Abs σ s)
+    (hpc : s.pc = BitVec.ofNat 64 addr) (haddr : addr + 4 < 2 ^ 64)
+    (s' : A64.St) (hs : A64.step w s = .ok s')
+    (hnowrap : (A64.XSP s (fld w 9 5) 64).toNat + 1 <<< fld w 31 30 ≤ 2 ^ 64) :
+    ∃ σ', runBTR r σ = .next σ' [s'.pc.toNat] ∧ Abs σ' s' :=
+  ldstOrdered_agrees w addr r hc h σ s ha hpc haddr s' hs hnowrap
+
+/-- STLUR/STLURB/STLURH (`size 011001 00 0 imm9 00 Rn Rt`) as plain stores at [Xn|SP + simm9] -/
+theorem lift_correct_stlur (w : BitVec 32) (addr : Nat) (r : BTR) (hc : fld w 29 24 = 0b011001)
+    (h : lift w addr = some r) (σ : State) (s : A64.St) (ha : Abs σ s)
+    (hpc : s.pc = BitVec.ofNat 64 addr) (haddr : addr + 4 < 2 ^ 64)
+    (s' : A64.St) (hs : A64.step w s = .ok s')
+    (hnowrap : (A64.XSP s (fld w 9 5) 64 + A64.sext64 (fld w 20 12) 9 0).toNat + 1 <<< fld w 31 30 ≤ 2 ^ 64) :
+    ∃ σ', runBTR r σ = .next σ' [s'.pc.toNat] ∧ Abs σ' s' :=
+  stlur_agrees w addr r hc h σ s ha hpc haddr s' hs hnowrap
+
+/-- PRFM (unsigned offset) and PRFUM: lifted as `nop`; `Prefetch()` changes no architectural state -/
+theorem lift_correct_prfmImm (w : BitVec 32) (addr : Nat) (r : BTR) (hc : fld w 29 27 = 0b111) (h25 : bit w 25 = false)
+    (h26 : bit w 26 = false) (himm : ImmForm w) (sg : Bool) (rs : Nat)
+    (hdec : A64.decodeSizeOpc (fld w 31 30) (fld w 23 22) = some (.prefetch, sg, rs))
+    (h : lift w addr = some r) (σ : State) (s : A64.St) (ha : Abs σ s)
+    (hpc : s.pc = BitVec.ofNat 64 addr) (haddr : addr + 4 < 2 ^ 64) : Agrees r σ w s :=
+  prfmImm_agrees w addr r hc h25 h26 himm sg rs hdec h σ s ha hpc haddr
+
+/-- PRFM (register offset) -/
+theorem lift_correct_prfmReg (w : BitVec 32) (addr : Nat) (r : BTR) (hc : fld w 29 27 = 0b111) (h25 : bit w 25 = false)
+    (h26 : bit w 26 = false) (hreg : RegForm w) (sg : Bool) (rs : Nat)
+    (hdec : A64.decodeSizeOpc (fld w 31 30) (fld w 23 22) = some (.prefetch, sg, rs))
+    (h : lift w addr = some r) (σ : State) (s : A64.St) (ha : Abs σ s)
+    (hpc : s.pc = BitVec.ofNat 64 addr) (haddr : addr + 4 < 2 ^ 64) : Agrees r σ w s :=
+  prfmReg_agrees w addr r hc h25 h26 hreg sg rs hdec h σ s ha hpc haddr
+
 /-! ### non-vacuity -/
 
 /-- `add x0, x1, #1` (0x91000420) is in the add/sub-immediate class and the mirror lifts it -/
@@ -215,6 +309,19 @@ example : ∃ r, lift (0x54000048#32) 0x1000 = some r := ⟨_, rfl⟩
 example : ∃ r, lift (0xb7f80044#32) 0x1000 = some r := ⟨_, rfl⟩
 example : ∃ r, lift (0x8b22cbe0#32) 0x1000 = some r := ⟨_, rfl⟩
 example : (lift (0xb208e3e0#32) 0x1000).isSome = true := by decide
+/-- `ldp x0, x1, [sp], #16` (0xa8c107e0), `stp w0, w1, [x2, #-8]!` (0x29bf0440), `ldr x0, [x1, w2, sxtw #3]` (0xf862d820),
+    `ldr x0, <label>` (0x58000040), `ldarb w0, [x1]` (0x08dffc20), `stlur x0, [x1, #8]` (0xd9008020) -/
+example : fld (0xa8c107e0#32) 29 27 = 0b101 ∧ fld (0xa8c107e0#32) 25 25 = 0 ∧ fld (0xa8c107e0#32) 26 26 = 0 := by decide
+example : PairOK (0xa8c107e0#32) := by
+  refine ⟨by decide, ?_⟩; intro h; revert h; decide
+example : ∃ r, lift (0xa8c107e0#32) 0x1000 = some r := ⟨_, rfl⟩
+example : ∃ r, lift (0x29bf0440#32) 0x1000 = some r := ⟨_, rfl⟩
+example : RegForm (0xf862d820#32) := ⟨by decide, by decide, by decide, by decide⟩
+example : ∃ r, lift (0xf862d820#32) 0x1000 = some r := ⟨_, rfl⟩
+example : ∃ r, lift (0x58000040#32) 0x1000 = some r := ⟨_, rfl⟩
+example : fld (0x08dffc20#32) 29 24 = 0b001000 := by decide
+example : ∃ r, lift (0x08dffc20#32) 0x1000 = some r := ⟨_, rfl⟩
+example : ∃ r, lift (0xd9008020#32) 0x1000 = some r := ⟨_, rfl⟩
 /-- the specification is not degenerate: `subs x0, x1, x2` with x1 = 1, x2 = 2 clears C (a borrow happened) … -/
 example : (A64.addWithCarry (1#64) (~~~(2#64)) true).2.2.2.1 = false := by decide
 /-- … and with x1 = 2, x2 = 1 sets it -/
